@@ -95,4 +95,20 @@ theorem tokens_ordered (text : List Char) (toks : List Token) (h : lex text = .o
     · simp only [List.mem_singleton] at h1
       subst h1; simp [eofToken]
 
+/-- tokens of `lex text` do not overlap: an earlier token ends no later than a later one starts -/
+theorem tokens_sorted (text : List Char) (toks : List Token) (h : lex text = .ok toks) :
+    toks.Pairwise (fun x y => x.range.hi ≤ y.range.lo) := by
+  have hl : toks = lexL text 0 ++ [eofToken (utf8Len text)] := by
+    simp only [lex, lexGo_eq_lexL] at h
+    cases h; rfl
+  have hb := lexL_bounds text 0
+  rw [hl, List.pairwise_append]
+  refine ⟨lexL_sorted text 0, by simp, ?_⟩
+  intro x hx y hy
+  simp only [List.mem_singleton] at hy
+  subst hy
+  have := hb x hx
+  simp only [eofToken]
+  omega
+
 end Spl.FoldPos
